@@ -519,5 +519,16 @@ Proof.
   - apply Z.leb_gt in E. symmetry. apply Z.div_small. lia.
 Qed.
 
-(* BinaryAdd never runs out of fuel or panics, and accepts exactly... (acceptance of every
-   power-of-two width is part of binary_add_spec; rejection of other widths is tied only) *)
+(* in particular BinaryAdd succeeds on every power-of-two width: no error, panic or fuel
+   exhaustion.  (Rejection of the other widths is checked by the correspondence cases only.) *)
+Theorem adder_sum_ex k a b ob :
+  length a = (2 ^ k)%nat -> length b = (2 ^ k)%nat ->
+  exists s ov, binary_add ob a b = Ok (s, ov) /\
+    length s = (2 ^ k)%nat /\
+    bval s = (bval a + bval b) mod 2 ^ Z.of_nat (2 ^ k) /\
+    (if ob then exists c, ov = Some [c] /\ Z.b2z c = (bval a + bval b) / 2 ^ Z.of_nat (2 ^ k)
+     else ov = None).
+Proof.
+  intros Ha Hb. pose proof (binary_add_spec k a b ob Ha Hb) as E.
+  eexists. eexists. split; [exact E|]. exact (adder_sum k a b ob _ _ Ha Hb E).
+Qed.
